@@ -96,16 +96,22 @@ fn decode_via(image: &[u8], plan: ReaderPlan, seed: u64, ctx: &mut Ctx) -> (Resu
 
 /// Decodes from a reader that has already been advanced to `start` (a stream embedded after a prefix).
 fn decode_from(image: &[u8], start: usize, plan: ReaderPlan, seed: u64, ctx: &mut Ctx) -> (Result<Vec<Message>, String>, u64, bool) {
+    decode_from_base(image, 0, start, plan, seed, ctx)
+}
+
+/// The image sits at logical offset `base` of a larger stream (e.g. beyond 4 GiB in a
+/// concatenated archive); the reader is positioned `start` bytes into it.
+fn decode_from_base(image: &[u8], base: u64, start: usize, plan: ReaderPlan, seed: u64, ctx: &mut Ctx) -> (Result<Vec<Message>, String>, u64, bool) {
     use std::io::{Seek, SeekFrom};
-    let mut rd = SimReader::new(image, plan, seed, ctx.trace_on);
+    let mut rd = SimReader::new(image, plan, seed, ctx.trace_on).at_offset(base);
     if start > 0 {
-        let _ = rd.seek(SeekFrom::Start(start as u64));
+        let _ = rd.seek(SeekFrom::Start(base + start as u64));
     }
     let r = decode_messages(&mut rd).map_err(|e| format!("{:?}", e));
     rd.account(ctx);
     ctx.evaluations += 1;
     let tripped = rd.tripped.is_some();
-    (r, rd.position(), tripped)
+    (r, rd.position() - base, tripped)
 }
 
 impl Check for C03 {
@@ -145,7 +151,7 @@ impl Check for C03 {
                "stub": ["the storage device behind Read+Seek (SimReader with Cursor seek semantics)"]})
     }
     fn required_probes(&self, _tier: Tier) -> Vec<&'static str> {
-        vec!["cut_inside_header", "cut_inside_body", "cut_on_boundary", "fault.eintr", "fault.short_read", "permuted_pointer_message", "embedded_after_prefix", "leading_bytes_look_like_size_prefix", "segmented_message_frames"]
+        vec!["cut_inside_header", "cut_inside_body", "cut_on_boundary", "fault.eintr", "fault.short_read", "permuted_pointer_message", "embedded_after_prefix", "leading_bytes_look_like_size_prefix", "segmented_message_frames", "stream_at_huge_offset", "total_length_is_frame_multiple"]
     }
     fn budget_s(&self, tier: Tier) -> u64 {
         match tier {
@@ -155,6 +161,7 @@ impl Check for C03 {
     }
 
     fn run(&self, p: &Params, tape: &mut Tape, ctx: &mut Ctx) {
+        crate::icd::ALLOW_NON_FINITE.with(|a| a.set(false));
         let small = p.section == 0;
         let opts = StreamOpts {
             max_msgs: if small { 5 } else { 300 },
@@ -173,6 +180,13 @@ impl Check for C03 {
         }
         if s.segment_groups > 0 {
             ctx.count("segmented_message_frames");
+        }
+        // total lengths that are exact multiples of the frame size although the stream holds
+        // variable-length messages - among them the 134 frames' worth of a metadata record
+        if !small && tape.draw(10) == 9 {
+            let frames = if tape.draw(2) == 0 { Some(134) } else { None };
+            crate::workload::pad_to_frame_multiple(&mut s, tape, frames);
+            ctx.count("total_length_is_frame_multiple");
         }
         let n = s.msgs.len();
         let has31 = s.msgs.iter().any(|m| m.mtype == 31);
@@ -294,6 +308,24 @@ impl Check for C03 {
                 };
                 if !ok {
                     ctx.violate("embedded-stream", "cut".into(), format!("embedded stream cut {} bytes in ({} complete messages, inside body: {}): got {:?}", t, k, inside_body, r.as_ref().map(|v| v.len())));
+                    return;
+                }
+            }
+        }
+
+        // ---- batch 1c: the stream far into a larger one (offsets beyond 32 bits)
+        if tape.draw(4) == 3 && !s.bytes.is_empty() {
+            let base = [1u64 << 32, (1u64 << 32) + 12_345, 3 * (1u64 << 32) + 7, (1u64 << 31) + 5, u32::MAX as u64 - 100][tape.draw(5) as usize];
+            ctx.count("stream_at_huge_offset");
+            let (r, pos, _) = decode_from_base(&s.bytes, base, 0, ReaderPlan::clean(), 0, ctx);
+            match r {
+                Ok(v) if v == clean && pos == s.bytes.len() as u64 => {}
+                Ok(v) => {
+                    ctx.violate("stream-at-large-offset", "differs".into(), format!("the stream placed at offset {} of a larger stream decoded to {} messages (reader {} bytes in) instead of {}", base, v.len(), pos, n));
+                    return;
+                }
+                Err(e) => {
+                    ctx.violate("stream-at-large-offset", "error".into(), format!("the stream placed at offset {} of a larger stream failed to decode: {}", base, e));
                     return;
                 }
             }
